@@ -742,7 +742,7 @@ Qed.
 Lemma run_cb_p w c : PC w -> PC (run_cb w c).
 Proof.
   intros H. unfold run_cb. destruct (wcrash w); auto. destruct c.
-  - apply resume_p; auto.
+  - destruct (_ <? _)%nat; [apply resume_p; auto|apply crashw_p; auto].
   - exact H.
   - destruct (res_trig_get _ _) as [[k0 r0]|] eqn:E; auto with pdb; apply upd_node_p; exact H.
   - destruct (res_trig_put _ _) as [[k0 r0]|] eqn:E; auto with pdb; apply upd_node_p; exact H.
